@@ -15,6 +15,23 @@ type Options struct {
 	Unchanged   bool // C13 oracle: a failing call leaves observable and private state as they were
 	Validate    bool // C37 oracle: every state and every world after an attempt holds only valid features
 	MergedPairs int  // valid-part pairs used by the MergedChange menu (0 = no merged attempts)
+	// TagOps adds AddTag/RemoveTag calls to the alphabet: attempted at every
+	// state and usable as first op for every world kind; inside the search they
+	// extend histories on overlay-over-base worlds only (where plain edits are
+	// held as tag modifications of base features).
+	TagOps bool
+	// FewTagSuccessors: inside the search only one plain edit of the point and
+	// one of the path extend histories (quick tier); every tag op is still
+	// attempted at every state and explored as first op.
+	FewTagSuccessors bool
+}
+
+// Alphabet of a run.
+func (o Options) Ops() []Op {
+	if o.TagOps {
+		return Ops()
+	}
+	return FeatureOps()
 }
 
 func worldType(k Kind) string {
@@ -27,7 +44,7 @@ func worldType(k Kind) string {
 func histString(c Combo, ops []Op, h []int) string {
 	var s []string
 	for _, i := range h {
-		s = append(s, "AddFeature("+ops[i].F.String()+")")
+		s = append(s, ops[i].String())
 	}
 	if len(s) == 0 {
 		return c.String() + " (seed only)"
@@ -45,7 +62,7 @@ type succ struct {
 // deduplicated by private key. At every state every op of the alphabet and
 // every merged change of the menu is attempted on a world rebuilt by replay.
 func Explore(c Combo, first int, opt Options, r *kit.Result) {
-	ops := Ops()
+	ops := opt.Ops()
 	var merged []Merged
 	if opt.MergedPairs > 0 {
 		merged = MergedMenu(opt.MergedPairs)
@@ -83,7 +100,13 @@ func Explore(c Combo, first int, opt Options, r *kit.Result) {
 		if first < 0 || len(h) >= opt.Depth {
 			continue
 		}
+		if ops[first].IsTag() && c.Kind != KOverlayBase {
+			continue // cheap coverage: the state after the tag edit gets every attempt, but is not extended
+		}
 		for _, s := range next {
+			if o := ops[s.op]; o.IsTag() && (c.Kind != KOverlayBase || (opt.FewTagSuccessors && o.Name != "tag-p1-name" && o.Name != "untag-w0-name")) {
+				continue
+			}
 			if !seen[s.key] {
 				seen[s.key] = true
 				queue = append(queue, append(append([]int{}, h...), s.op))
@@ -175,8 +198,10 @@ func processState(c Combo, ops []Op, merged []Merged, h []int, opt Options, r *k
 	}
 
 	for i, op := range ops {
-		hyp := sys.Model.With(op.F)
-		probs := hyp.Problems()
+		var probs []Problem
+		if !op.IsTag() {
+			probs = sys.Model.With(op.F).Problems()
+		}
 		stage := ""
 		if len(probs) > 0 {
 			stage = "referrer-becomes-invalid"
@@ -186,14 +211,25 @@ func processState(c Combo, ops []Op, merged []Merged, h []int, opt Options, r *k
 				}
 			}
 		}
-		res := sys.Residency(op.F.ID)
-		call := fmt.Sprintf("AddFeature(%s) [%s; replaces: %s]", op.F, op.Cat, res)
+		res := sys.Residency(op.Target())
+		verb := "replaces"
+		if op.IsTag() {
+			verb = "edits"
+		}
+		call := fmt.Sprintf("%s [%s; %s: %s]", op, op.Cat, verb, res)
+		site := wt + ".AddFeature"
+		if op.IsTag() {
+			site = wt + ".AddTag"
+			if op.Tag.Remove {
+				site = wt + ".RemoveTag"
+			}
+		}
 		var err error
-		cls, msg := kit.Catch(func() { err = sys.W.AddFeature(op.F.Make()) })
+		cls, msg := kit.Catch(func() { err = sys.Apply(op) })
 		r.Transitions++
 		switch {
 		case cls != "":
-			r.Violate(wt+".AddFeature:"+cls, "history: %s\ncall: %s\n%s", here, call, msg)
+			r.Violate(site+":"+cls, "history: %s\ncall: %s\n%s", here, call, msg)
 			r.AddOutcome("add:panic")
 			sys = rebuild()
 		case err != nil:
@@ -202,7 +238,7 @@ func processState(c Combo, ops []Op, merged []Merged, h []int, opt Options, r *k
 				st = "model-holds-it-valid"
 				r.Count("add-rejected-though-model-valid:"+op.Cat, 1)
 			}
-			if afterError(call+" [model: "+st+"]", wt+".AddFeature:rejected", err) {
+			if afterError(call+" [model: "+st+"]", site+":rejected", err) {
 				sys = rebuild()
 			}
 			r.AddOutcome("add:rejected:" + st)
@@ -224,7 +260,7 @@ func processState(c Combo, ops []Op, merged []Merged, h []int, opt Options, r *k
 					}
 					switch {
 					case len(ps) > 0:
-						r.Violate(RootClass(wt+".AddFeature", "AddFeature", verdict, ps),
+						r.Violate(RootClass(site, "AddFeature", verdict, ps),
 							"history: %s\ncall: %s\nreturned: nil (accepted)\nexpected: an error, or a world that still holds only valid features\nafterwards the world holds: %s", here, call, ProblemsString(ps))
 					case c.Kind == KOverlayBase && onlyUnlocated(probs):
 						// the overlay still resolves the location through the base (overlay shadowing is C16's
@@ -236,7 +272,7 @@ func processState(c Combo, ops []Op, merged []Merged, h []int, opt Options, r *k
 				}
 			default:
 				if len(ps) > 0 {
-					r.Violate(fmt.Sprintf("%s.AddFeature:accepted-valid-feature-but-world-invalid:%s", wt, ProblemClasses(ps)),
+					r.Violate(fmt.Sprintf("%s:accepted-valid-feature-but-world-invalid:%s", site, ProblemClasses(ps)),
 						"history: %s\ncall: %s\nreturned: nil\nthe model holds the result valid, but the world holds: %s", here, call, ProblemsString(ps))
 				} else {
 					out = append(out, succ{i, sys.Key()})
